@@ -105,7 +105,12 @@ Theorem C08_checker_accepts_add_rule : forall s w d, no_fault w ->
   chk_c08_call (OAddRule d) (next_seq s) (rscript w) (result_of (snd (cstep s w (OAddRule d)))) = true.
 Proof. exact chk_c08_accepts_add_rule. Qed.
 
+Theorem C08_checker_accepts_get_status : forall s w, no_fault w ->
+  chk_c08_call OGetStatus (next_seq s) (rscript w) (result_of (snd (cstep s w OGetStatus))) = true.
+Proof. exact chk_c08_accepts_get_status. Qed.
+
 Print Assumptions C08_reply_found.
+Print Assumptions C08_checker_accepts_get_status.
 Print Assumptions C08_spec_reading_is_get_reply.
 Print Assumptions C08_checker_accepts_set.
 Print Assumptions C08_checker_accepts_delete_rule.
